@@ -4,7 +4,7 @@
    correspondence); lookup_register / REGISTERS are GENERATED from asm.py (Gen/Encoders.v); py_int_lit is the model of
    int(s, 0) (Base/PyBase.v); regnum is the documented reading of a register operand (Spec/Operands.v). *)
 From Coq Require Import ZArith List String Ascii.
-From BB Require Import Base.PyBase Gen.Encoders Spec.RV32 Spec.Operands Model.Items Model.Lexer Model.Parser Model.Passes Proofs.LexSep Proofs.LexFront Proofs.ParseForms Proofs.Program Proofs.Relabel.
+From BB Require Import Base.PyBase Gen.Encoders Spec.RV32 Spec.Operands Model.Items Model.Lexer Model.Parser Model.Passes Proofs.LexSep Proofs.LexFront Proofs.ParseForms Proofs.Program Proofs.Relabel Proofs.IntSpell.
 Import ListNotations.
 Open Scope Z_scope.
 
@@ -52,6 +52,13 @@ Theorem C13_int_spelling : forall v : Z, 0 <= v < 65536 ->
   py_int_lit (dec_of_Z (- v)) = Some (- v).
 Proof. exact int_spellings. Qed.
 Print Assumptions C13_int_spelling.
+(* ... and by induction on the digit loops (no sweep) for every value each renderer's fuel allows: decimal (also negated) below
+   10^80, hex below 16^20, binary below 2^70 -- in particular for every 64-bit value *)
+Theorem C13_int_spelling_wide : forall v : Z, 0 <= v < 2 ^ 64 ->
+  py_int_lit (dec_of_Z v) = Some v /\ py_int_lit (hex_of v) = Some v /\ py_int_lit (bin_of v) = Some v /\
+  py_int_lit (dec_of_Z (- v)) = Some (- v).
+Proof. exact IntSpell.int_spellings_wide. Qed.
+Print Assumptions C13_int_spelling_wide.
 
 (* `imm(reg)` versus `reg, imm` for the base + offset instructions: both token lists parse to the SAME item (parser model),
    for every register and offset token; the mnemonics covered are exactly the GENERATED BASE_OFFSET_INSTRUCTIONS table.
